@@ -76,6 +76,38 @@ def build_native(base, repo):
     return os.path.join(base, 'target-native/debug/verif_replay'), time.time() - t
 
 
+def start_kani(base, repo):
+    """second engine: all #[kani::proof] harnesses of harness/kani_h.rs, in the same scratch copy"""
+    log_path = os.path.join(base, 'kani.log')
+    cmd = ['cargo', 'kani', '-j', '8', '--output-format', 'terse', '--target-dir', os.path.join(base, 'target-kani')]
+    f = open(log_path, 'w')
+    p = subprocess.Popen(cmd, cwd=repo, stdout=f, stderr=subprocess.STDOUT, env=ENV)
+    return p, log_path, time.time()
+
+
+def finish_kani(k, timeout=1500):
+    import re
+    p, log_path, t0 = k
+    try:
+        p.wait(timeout=timeout)
+    except subprocess.TimeoutExpired:
+        p.kill()
+        return {'status': 'timeout', 'time_s': round(time.time() - t0, 1)}
+    txt = open(log_path).read()
+    names = re.findall(r'Checking harness ([\w:]+)', txt)
+    ok_n = len(re.findall(r'VERIFICATION:- SUCCESSFUL', txt))
+    bad_n = len(re.findall(r'VERIFICATION:- FAILED', txt))
+    m = re.search(r'Complete - (\d+) successfully verified harnesses, (\d+) failures, (\d+) total', txt)
+    failed = re.findall(r'Verification failed for - ([\w:]+)', txt)
+    covers = re.findall(r'(\d+) of (\d+) cover properties satisfied', txt)
+    status = 'ok' if (m and int(m.group(2)) == 0 and int(m.group(1)) == int(m.group(3)) and int(m.group(3)) > 0
+                      and p.returncode == 0) else 'failed'
+    return {'status': status, 'harnesses': sorted(set(names)), 'successful': ok_n, 'failed': bad_n,
+            'failed_harnesses': failed, 'covers_satisfied': [f'{a}/{b}' for a, b in covers][:40],
+            'engine': 'kani 0.68 / CBMC 6.11 (cadical)', 'unwind': 6, 'time_s': round(time.time() - t0, 1),
+            'log_tail': '' if status == 'ok' else txt[-1500:]}
+
+
 # ------------------------------------------------------------------------------ workers
 _W = {}
 
@@ -297,16 +329,29 @@ def run_props(prop_ids, tier, seed, keep=False):
             mir, t_mir = a1.get()
             binary, t_nat = a2.get()
         log(f'[setup] MIR dump {t_mir:.1f}s, native build {t_nat:.1f}s')
+        kani = None
+        if any(P.PROPS[p].get('kani') for p in prop_ids) and not os.environ.get('VERIF_NO_KANI'):
+            kani = start_kani(base, repo)
+        kani_res = None
         for pid in prop_ids:
             cfg = P.PROPS[pid]
-            rc = max(rc, run_one(pid, cfg, tier, seed, base, repo, mir, binary, listed, t_mir + t_nat))
+            if cfg.get('kani') and kani is not None and kani_res is None:
+                # explore first, collect the second engine afterwards
+                pass
+            rc = max(rc, run_one(pid, cfg, tier, seed, base, repo, mir, binary, listed, t_mir + t_nat,
+                                 kani if cfg.get('kani') else None, prop_ids))
+        if kani is not None and kani[0].poll() is None:
+            kani[0].kill()
     finally:
         if not keep:
             shutil.rmtree(base, ignore_errors=True)
     return rc
 
 
-def run_one(pid, cfg, tier, seed, base, repo, mir, binary, listed, t_setup):
+_KANI_CACHE = {}
+
+
+def run_one(pid, cfg, tier, seed, base, repo, mir, binary, listed, t_setup, kani=None, prop_ids=()):
     t0 = time.time()
     names = cfg['harnesses']
     max_paths = cfg.get('max_paths', {}).get(tier, 200000 if tier == 'quick' else 3000000)
@@ -404,7 +449,15 @@ def run_one(pid, cfg, tier, seed, base, repo, mir, binary, listed, t_setup):
         out_lines.append(f'VIOLATION property={pid} replay={path}')
         log(f'  violation {h} {chk}: inputs={inputs} ({how})')
         rc = 1
-    if rc == 0 and (gaps or divergences or trunc or missing_cover):
+    kani_res = None
+    if kani is not None:
+        if 'res' not in _KANI_CACHE:
+            _KANI_CACHE['res'] = finish_kani(kani)
+        kani_res = _KANI_CACHE['res']
+        if kani_res['status'] != 'ok':
+            log(f'INCONCLUSIVE {pid}: second engine (Kani) did not verify the comparator laws: '
+                f'{kani_res.get("failed_harnesses")} {kani_res["status"]} {kani_res.get("log_tail", "")[-600:]}')
+    if rc == 0 and (gaps or divergences or trunc or missing_cover or (kani_res and kani_res['status'] != 'ok')):
         rc = 2
     for h, g in gaps[:10]:
         log(f'INCONCLUSIVE {pid} {h}: model gap: {g[:600]}')
@@ -450,6 +503,7 @@ def run_one(pid, cfg, tier, seed, base, repo, mir, binary, listed, t_setup):
             'inconclusive': {'gaps': len(gaps), 'divergences': len(divergences), 'truncated': trunc,
                              'missing_covers': missing_cover},
             'explore_time_s': round(t_explore, 1),
+            'kani': kani_res or 'not run for this property',
         },
         'assumptions': cfg.get('assumptions', []) + [
             'rustc nightly MIR printer + mirsym parser/interpreter; std models in /verif/mirsym/models*.py '
